@@ -48,6 +48,34 @@ unsafe impl GlobalAlloc for Fence {
         let start = (end - layout.size()) & !(layout.align() - 1);
         start as *mut u8
     }
+    unsafe fn alloc_zeroed(&self, layout: Layout) -> *mut u8 {
+        if !ON.load(Ordering::Relaxed) {
+            return System.alloc_zeroed(layout);
+        }
+        // fenced pages come straight from mmap and are already zero; the fallback path is not
+        let p = self.alloc(layout);
+        let base = BASE.load(Ordering::Relaxed);
+        let a = p as usize;
+        if !p.is_null() && !(base != 0 && a >= base && a < base + REGION) {
+            std::ptr::write_bytes(p, 0, layout.size());
+        }
+        p
+    }
+    unsafe fn realloc(&self, ptr: *mut u8, layout: Layout, new_size: usize) -> *mut u8 {
+        let base = BASE.load(Ordering::Relaxed);
+        let p = ptr as usize;
+        let fenced = base != 0 && p >= base && p < base + REGION;
+        if !fenced && !ON.load(Ordering::Relaxed) {
+            return System.realloc(ptr, layout, new_size);
+        }
+        let new_layout = Layout::from_size_align_unchecked(new_size, layout.align());
+        let np = self.alloc(new_layout);
+        if !np.is_null() {
+            std::ptr::copy_nonoverlapping(ptr, np, layout.size().min(new_size));
+            self.dealloc(ptr, layout);
+        }
+        np
+    }
     unsafe fn dealloc(&self, ptr: *mut u8, layout: Layout) {
         let base = BASE.load(Ordering::Relaxed);
         let p = ptr as usize;
